@@ -285,8 +285,8 @@ def run(ctx, rep):
     for cfg in ctx.configs():
         nwalk, nstart, nsw, nmaps, npairs = run_config(ctx, rep, cfg)
         if cfg is None:
-            rep.floor("C03.R1", "direction-constrained walkers reached", nwalk, 18)
-            rep.floor("C03.R2", "schedule walks", nstart, 13)
+            rep.floor("C03.R1", "direction-constrained walkers reached", nwalk, 12)
+            rep.floor("C03.R2", "schedule walks", nstart, 8)
             rep.floor("C03.R4", "mode-switch functions", nsw, 2)
             rep.floor("C03.R5", "sites applying the reflection constant to k1", nmaps, 4)
             rep.floor("C03.R3", "inverse helper pairs", npairs, 4)
